@@ -15,7 +15,6 @@
 -/
 import Model.Path
 import Proofs.Row
-import Proofs.PathRoundTrip
 import Proofs.RowTieText
 
 namespace Jl.C18
@@ -151,62 +150,6 @@ theorem import_touches_only_addressed (env : Env) (row row' : List (Bytes × Val
         · cases h; exact hup v _ hv
         · cases h
         · cases h
-
-/-! ### Writing through a path, then reading through it (`Proofs/PathRoundTrip`) -/
-
-/-- A successful `ImportAtPath` is read back at that path: the cell found there afterwards is what `Value.Import` made
-    of the cell that was there (any environment). -/
-theorem get_after_import (env : Env) (row row' : List (Bytes × Val)) (path : Bytes) (x : Dyn)
-    (h : importAtPath env row path x = .ok (row', none)) :
-    ∃ v v', getValueAtPath row path = some v ∧ importVal env v x = .ok (v', none) ∧
-      getValueAtPath row' path = some v' :=
-  PathRoundTrip.get_after_import env row row' path x h
-
-/-- For an Auto / Hidden cell without raw type and a plain value (not itself a `jsonline.Value`), over the regenerated
-    tables: the import succeeds and the raw value read back at the path is the value imported. -/
-theorem get_after_import_auto (ext : Ext) (row row' : List (Bytes × Val)) (path : Bytes) (x : Dyn)
-    (e : Option ErrClass) (r : Dyn) (f : Format) (hf : f = .auto ∨ f = .hidden) (hx : PathRoundTrip.Plain x)
-    (hc : getValueAtPath row path = some (.cell r f .none))
-    (h : importAtPath ⟨genTables, ext⟩ row path x = .ok (row', e)) :
-    e = none ∧ getValueAtPath row' path = some (.cell x f .none) ∧ getAtPath row' path = some x :=
-  PathRoundTrip.get_after_import_auto ext row row' path x e r f hf hx hc h
-
-/-- "Touches only the addressed cell", for dotted paths at every depth: every path that is neither a prefix nor an
-    extension of the one imported at finds what it found before — whatever the import did (success or error). -/
-theorem import_keeps_other_paths (env : Env) (row row' : List (Bytes × Val)) (path q : Bytes)
-    (x : Dyn) (e : Option ErrClass) (h : importAtPath env row path x = .ok (row', e))
-    (h1 : ¬ splitDots q <+: splitDots path) (h2 : ¬ splitDots path <+: splitDots q) :
-    getValueAtPath row' q = getValueAtPath row q :=
-  PathRoundTrip.import_keeps_other_paths env row row' path q x e h h1 h2
-
-/-- A path that cannot be walked (missing segment, below a scalar, through a Go map): the import reports
-    path-not-found and the row is unchanged. -/
-theorem import_at_unwalkable_path (env : Env) (row : List (Bytes × Val)) (path : Bytes)
-    (x : Dyn) (h : getValueAtPath row path = none) :
-    importAtPath env row path x = .ok (row, some .pathNotFound) :=
-  PathRoundTrip.import_missing_is_error_and_noop env row path x h
-
-/-- "The most recently stored value" through paths: importing twice at one path is importing the second value (the
-    first one plain — a `jsonline.Value` handed to `Import` replaces the cell's declaration:
-    `PathRoundTrip.import_import_needs_plain` is the witness that this cannot be dropped). -/
-theorem import_import (env : Env) (row row₁ : List (Bytes × Val)) (path : Bytes) (x₁ x₂ : Dyn)
-    (e₁ : Option ErrClass) (r : Dyn) (f : Format) (t : Ty)
-    (hc : getValueAtPath row path = some (.cell r f t)) (hx₁ : PathRoundTrip.Plain x₁)
-    (h₁ : importAtPath env row path x₁ = .ok (row₁, e₁)) :
-    importAtPath env row₁ path x₂ = importAtPath env row path x₂ :=
-  PathRoundTrip.import_import env row row₁ path x₁ x₂ e₁ r f t hc hx₁ h₁
-
-/-- The two readers: whatever `GetValueAtPath` finds, `FindValuesAtPath` finds alone; and when no array lies on the
-    path the two agree on absence too. -/
-theorem find_of_get (row : List (Bytes × Val)) (path : Bytes) (v : Val) (hg : getValueAtPath row path = some v) :
-    findValuesAtPath row path = some [v] :=
-  PathRoundTrip.find_of_get row path v hg
-
-theorem find_single (row : List (Bytes × Val)) (path : Bytes)
-    (hna : PathRoundTrip.NoArrayOn row (splitDots path)) :
-    findValuesAtPath row path = (getValueAtPath row path).map fun v => [v] :=
-  PathRoundTrip.find_single row path hna
-
 
 /-! ### The path functions of the model are the source's (Proofs/RowTieText) -/
 
